@@ -48,6 +48,9 @@ type exec struct {
 	touched  map[string]bool     // bucket\0name touched by the current step: all forms fetched
 	last     map[string]string   // canon of the previous dump
 	lastDump *drive.StoreDump
+	// snaps keeps object resources exactly as earlier metadata GETs returned them (current and stale, also of earlier
+	// incarnations of a name): bodies for read-modify-write style PATCH requests that send the full resource back.
+	snaps    map[string][]map[string]any
 	lastFull string // status + complete body of the last deciding response (+ resumable sub-requests)
 	mustSame bool   // the last step failed (non-2xx): the next dump must equal the previous one
 	stats    map[string]int64
@@ -55,7 +58,7 @@ type exec struct {
 
 func newExec(srv *drive.Server, strictGrowth bool) *exec {
 	return &exec{cl: srv.Client, kind: srv.Kind, m: model.NewStore(), laws: model.NewLaws(strictGrowth),
-		universe: map[string][]string{}, touched: map[string]bool{}, stats: map[string]int64{}}
+		universe: map[string][]string{}, touched: map[string]bool{}, stats: map[string]int64{}, snaps: map[string][]map[string]any{}}
 }
 
 func (e *exec) rec(req, expect, obs string, sub []string) {
@@ -78,6 +81,47 @@ func (e *exec) law(msg string) {
 	if msg != "" {
 		e.lawViol = append(e.lawViol, fmt.Sprintf("after step %d: %s", len(e.steps)-1, msg))
 	}
+}
+
+// noteSnap remembers a resource as served by a metadata GET (at most 6 per name, distinct generation/metageneration).
+func (e *exec) noteSnap(b, n string, res map[string]any) {
+	k := b + "\x00" + n
+	id := fmt.Sprint(res["generation"], "/", res["metageneration"])
+	for _, s := range e.snaps[k] {
+		if fmt.Sprint(s["generation"], "/", s["metageneration"]) == id {
+			return
+		}
+	}
+	if len(e.snaps[k]) >= 6 {
+		e.snaps[k] = append(e.snaps[k][:1], e.snaps[k][2:]...) // keep the oldest, drop the second oldest
+	}
+	e.snaps[k] = append(e.snaps[k], res)
+}
+
+// snapshot does a metadata GET of a live object now and remembers the resource.
+func (e *exec) snapshot(b, n string) {
+	if r := e.cl.GetMeta(b, n); r.Status == 200 {
+		if m, err := r.JSON(); err == nil {
+			e.noteSnap(b, n, m)
+		}
+	}
+}
+
+// cloneResource deep-copies a decoded resource (one level of nesting: metadata).
+func cloneResource(res map[string]any) map[string]any {
+	out := map[string]any{}
+	for k, v := range res {
+		if mm, ok := v.(map[string]any); ok {
+			cp := map[string]any{}
+			for a, b := range mm {
+				cp[a] = b
+			}
+			out[k] = cp
+		} else {
+			out[k] = v
+		}
+	}
+	return out
 }
 
 // noteWrite counts content writes that re-create a name deleted earlier / replace a live object.
@@ -528,7 +572,9 @@ func (e *exec) del(b, n string, c model.Conds) string {
 	return ""
 }
 
-// patch sends a PATCH of non-null user-settable fields.
+// patch sends a PATCH. fields is the JSON body: non-null user-settable fields, possibly embedded in a full object
+// resource as an earlier metadata GET returned it (output-only fields such as generation, metageneration, size,
+// md5Hash, name, links, timestamps must then not change the object).
 func (e *exec) patch(b, n string, fields map[string]any, c model.Conds) string {
 	cur := e.m.Get(b, n)
 	v := model.Eval(cur, c)
@@ -548,6 +594,12 @@ func (e *exec) patch(b, n string, fields map[string]any, c model.Conds) string {
 	e.touch(b, n)
 	rsp := e.cl.Patch(b, n, body, condParams(c))
 	req := fmt.Sprintf("patch %s/%q %s", b, n, body)
+	if _, full := fields["generation"]; full {
+		e.stats["patches_full_resource"]++
+		if cur != nil && fmt.Sprint(fields["generation"], "/", fields["metageneration"]) != fmt.Sprint(cur.Gen, "/", cur.Metagen) {
+			e.stats["patches_full_resource_stale"]++
+		}
+	}
 	if !c.Empty() {
 		req += " conds=" + c.String()
 	}
@@ -576,7 +628,7 @@ func (e *exec) patch(b, n string, fields map[string]any, c model.Conds) string {
 			return "patch response: " + msg
 		}
 		e.law(e.laws.Patch(b, n, gen, metagen))
-		want := model.MergePatch(cur.Learned, fields)
+		want := model.MergePatch(cur.Learned, model.ExtractFields(fields))
 		if msg := model.FieldsEqual(model.ExtractFields(res), want); msg != "" {
 			e.law("patch response does not show exactly the merged fields: " + msg)
 		}
@@ -925,6 +977,24 @@ func (e *exec) diff(d *drive.StoreDump) string {
 					return fmt.Sprintf("listing of bucket %s lacks live object %q (listed: %q)", b, n, bv.Listed)
 				}
 			}
+			for mr, pl := range bv.Paged {
+				if pl.Err != "" {
+					return fmt.Sprintf("listing of bucket %s with maxResults=%d: %s", b, mr, pl.Err)
+				}
+				got := map[string]int{}
+				for _, n := range pl.Names {
+					got[n]++
+				}
+				for _, n := range e.m.Names(b) {
+					if got[n] != 1 {
+						return fmt.Sprintf("listing of bucket %s with maxResults=%d over %d pages shows live object %q %d times (pages: %q)", b, mr, pl.Pages, n, got[n], pl.Names)
+					}
+				}
+				if len(pl.Names) != len(e.m.Names(b)) {
+					return fmt.Sprintf("listing of bucket %s with maxResults=%d shows %q, live are %q", b, mr, pl.Names, e.m.Names(b))
+				}
+				e.stats["paged_listings_compared"]++
+			}
 		}
 		names := make([]string, 0, len(bv.Objects))
 		for n := range bv.Objects {
@@ -960,6 +1030,7 @@ func (e *exec) diff(d *drive.StoreDump) string {
 				return fmt.Sprintf("metadata GET of %s/%q reports generation/metageneration %d/%d, last acknowledged %d/%d", b, n, g, mg, o.Gen, o.Metagen)
 			}
 			e.stats["gen_reports_compared"]++
+			e.noteSnap(b, n, ov.Meta)
 			if msg := model.FieldsEqual(model.ExtractFields(ov.Meta), o.Learned); msg != "" {
 				return fmt.Sprintf("metadata GET of %s/%q: user-settable fields differ from the last acknowledged ones: %s", b, n, msg)
 			}
